@@ -41,15 +41,18 @@ def seg_alphabet():
         ("split-len16+tail", [R.encode(R.BINARY, bytes(200))[:3], R.encode(R.BINARY, bytes(200))[3:] + R.encode(R.TEXT, b"after")]),
         # a frame larger than one transport read followed by another frame in the same segment
         ("big+tail", [R.encode(R.BINARY, bytes(range(256)) * 80) + R.encode(R.TEXT, b"t")]),
+        # a text message cut inside multi-byte characters at both fragment boundaries (with a ping in between)
+        ("frag-split-char", [R.encode(R.TEXT, b"w\xc3", fin=0) + R.encode(R.CONT, b"\xb6r\xe2\x82", fin=0), R.encode(R.PING, b"m") + R.encode(R.CONT, b"\xacd", fin=1)]),
     ]
 
 
 SEGS = seg_alphabet()
+CORE = 12  # histories of the full depth are built from the first CORE kinds; kinds added later take part in histories up to depth 2 (quick tier)
 
 
 def bounds(tier):
     if tier == "quick":
-        return "histories of <= 3 segments over 12 segment kinds x glued/not x plain/TLS x 9 callback subsets x 6 raising options; reconnected connection"
+        return "histories of <= 3 segments over 13 segment kinds x glued/not x plain/TLS x 9 callback subsets x 6 raising options; reconnected connection"
     return "histories of <= 4 segments x 9 callback subsets; histories of <= 2 segments x all 128 callback subsets; x glued x plain/TLS x 6 raising options"
 
 
@@ -63,6 +66,11 @@ def subsets(all_):
     for r in range(len(CB7) + 1):
         out += list(itertools.combinations(CB7, r))
     return out
+
+
+def trace_variant(desc, tier):
+    """With trace logging enabled: the reconnect part and the histories starting with every third segment kind."""
+    return desc["part"] == "reconnect" or (desc["part"] == "hist" and not desc.get("all_subsets") and desc["first"] % 3 == 0)
 
 
 def tasks(tier, seed):
@@ -201,7 +209,10 @@ def iter_cases(desc):
     if desc["part"] == "hist":
         cbsets = subsets(desc["all_subsets"])
         for k in range(1, desc["depth"] + 1):
-            for rest in itertools.product(range(len(SEGS)), repeat=k - 1):
+            pool = range(len(SEGS)) if (k <= 2 or desc["depth"] > 3) else range(CORE)
+            if k > 2 and desc["depth"] <= 3 and desc["first"] >= CORE:
+                continue
+            for rest in itertools.product(pool, repeat=k - 1):
                 segidx = (desc["first"],) + rest
                 for glue in (False, True):
                     for cbs in cbsets:
